@@ -55,9 +55,12 @@ def shortest_word(rule_name):
     return lang.shortest_specified(rules(), rule_name)
 
 
-def make_node(rule_name, word=None, content="__valid__", attrs=None, name=None):
+VALID = object()
+
+
+def make_node(rule_name, word=None, content=VALID, attrs=None, name=None):
     n = Node(name or parent_name(rule_name))
-    if content == "__valid__":
+    if content is VALID:
         content = contentgen.valid_content(rules()[rule_name][2])
     n.content = content
     for a, v in (valid_attrs(rule_name) if attrs is None else attrs).items():
